@@ -43,9 +43,11 @@ TOL = 1e-9
 
 EXACT_MEASURES = {
     "app": ["Cardinality_Sat", "Cost_Sat", "Relative_Cardinality_Sat", "Relative_Cost_Approx_Normaliser_Sat", "Effort_Sat", "CC_Sat"],
-    "card": ["Additive_Cardinal_Sat", "CC_Sat"],
-    "cum": ["Additive_Cardinal_Sat", "CC_Sat"],
-    "ord": ["Additive_Borda_Sat"],
+    # the approval-style measures only ask `project in ballot`, so they apply to every ballot type (C18-r7B: Effort_Sat counting the
+    # supporters of a project on a cardinal / ordinal MULTIprofile)
+    "card": ["Additive_Cardinal_Sat", "CC_Sat", "Effort_Sat", "Cost_Sat", "Cardinality_Sat"],
+    "cum": ["Additive_Cardinal_Sat", "CC_Sat", "Effort_Sat", "Cost_Sat"],
+    "ord": ["Additive_Borda_Sat", "Effort_Sat", "Cost_Sat", "Cardinality_Sat"],
 }
 FLOAT_MEASURES = {"app": ["Cost_Sqrt_Sat", "Cost_Log_Sat", "Additive_Cost_Sqrt_Sat", "Additive_Cost_Log_Sat"]}
 
@@ -843,6 +845,14 @@ def history_stream(ctx, n):
         names = [nm for nm, _ in case.projects]
         new_ballot = core.gen_ballots(rng, case.btype, names, 1, 1)[0]
         i = rng.randrange(len(case.ballots))
+        # half of the histories edit the BALLOT OBJECT of voter i in place (remove one project through an operation of the ballot's
+        # base class) instead of replacing it: what the ballot remembers about itself must follow (C18-r7A: stored positions)
+        inplace = None
+        old = case.ballots[i]
+        if rng.random() < 0.5 and len(old) >= 2:
+            victim = rng.choice(list(old))
+            inplace = (victim, rng.choice(["pop", "del"] if case.btype != "app" else ["discard", "remove"]))
+            new_ballot = {k: v for k, v in old.items() if k != victim} if case.btype in ("card", "cum") else [x for x in old if x != victim]
         inst, projs = core.build_instance(case)
         P = core.build_profile(case, inst, projs)
         edited = list(case.ballots)
@@ -862,7 +872,12 @@ def history_stream(ctx, n):
             calls += [("avg_total_score", lambda p: A.avg_total_score(inst, p)), ("median_total_score", lambda p: A.median_total_score(inst, p))]
         try:
             first = {nm: f(P) for nm, f in calls}
-            P[i] = fresh[i]
+            if inplace is None:
+                P[i] = fresh[i]
+            elif inplace[1] == "del":
+                del P[i][projs[inplace[0]]]
+            else:
+                getattr(P[i], inplace[1])(projs[inplace[0]])
             second = {nm: f(P) for nm, f in calls}
             want = {nm: f(fresh) for nm, f in calls}
         except Exception as e:  # noqa: BLE001
@@ -875,7 +890,7 @@ def history_stream(ctx, n):
             same = (abs(float(a) - float(b)) <= 1e-9 * max(1.0, abs(float(b)))) if isinstance(a, float) or isinstance(b, float) else core.toF(a) == core.toF(b)
             if not same:
                 ctx.violations.append({"what": f"{nm} on a profile edited in place (voter {i} replaced) gives {a}, a freshly built profile with the same ballots gives {b}",
-                                       "case": case2.to_json(), "cfg": {"kind": "history", "call": nm, "edited_voter": i, "original": case.to_json()},
+                                       "case": case2.to_json(), "cfg": {"kind": "history", "call": nm, "edited_voter": i, "original": case.to_json(), "inplace": inplace},
                                        "impl": str(a), "expected": str(b), "sig": {"call": nm, "history": True}})
         if any(str(first[k]) != str(second[k]) for k in first):
             ctx.nontrivial.add("hist" + case.key() + str(i))
@@ -897,7 +912,14 @@ def replay_history(payload):
     if f is None or nm in ("avg_satisfaction", "gini_coefficient_of_satisfaction"):
         return True, "replay of this statistic needs the allocation of the original run; not stored"
     f(inst, P)
-    P[i] = fresh[i]
+    if cfg.get("inplace"):
+        victim, op = cfg["inplace"]
+        if op == "del":
+            del P[i][projs[victim]]
+        else:
+            getattr(P[i], op)(projs[victim])
+    else:
+        P[i] = fresh[i]
     a, b = f(inst, P), f(inst, fresh)
     if str(a) != str(b):
         return False, f"still fails: {nm} gives {a} on the edited object and {b} on a fresh one"
